@@ -31,7 +31,7 @@ fn range_set_i64<const N: usize>() {
         want = want || (los[i] <= x && x <= his[i]);
         i += 1;
     }
-    assert!(got == want, "x in {ranges} <=> some listed range contains x");
+    assert!(got == want, "x in the brace list <=> some listed range contains x");
     // representation invariant
     assert!(set.ranges.len() <= N);
     let mut i = 0;
@@ -107,7 +107,7 @@ fn range_set_ipv4<const N: usize>() {
         want = want || (los[i] <= x && x <= his[i]);
         i += 1;
     }
-    assert!(got == want, "addr in {ranges} <=> some listed range contains addr (numeric IPv4 order)");
+    assert!(got == want, "addr in the brace list <=> some listed range contains addr (numeric IPv4 order)");
     kani::cover!(got);
     kani::cover!(!got);
     std::mem::forget(set);
